@@ -403,6 +403,33 @@ pub fn c11(tier: Tier) -> i32 {
     };
     let _ = tier;
     docu::run(&mut rep, tier, &["edge", "num"], &both);
+    // the number writers under the `perf` feature (another string type, possibly another formatting path): the cfg
+    // engine's binary prints a float / integer lattice in the default and in the perf build; the digests must agree
+    {
+        let t0 = std::time::Instant::now();
+        let a = crate::c18::build("te-default", "te_parse te_display").and_then(|exe| crate::c18::run("te-default", &exe));
+        let b = crate::c18::build("te-perf", "te_parse te_display te_perf").and_then(|exe| crate::c18::run("te-perf", &exe));
+        match (a, b) {
+            (Ok(a), Ok(b)) => {
+                let n = a.counts.get("te.number.print").copied().unwrap_or(0);
+                let mut acc = Acc::default();
+                acc.evals = n * 2;
+                acc.nontrivial_overflow = n;
+                acc.sample(|| format!("{} numbers printed in the default and in the perf build", n));
+                if n == 0 || a.blocks.get("te.number.print") != b.blocks.get("te.number.print") {
+                    acc.viol("U-perf", "te.number.print between te-default and te-perf".to_string(), None, "the number writers print differently with the `perf` feature (or the battery kind is missing)".into());
+                }
+                for v in a.viols.iter().chain(b.viols.iter()) {
+                    acc.viol("U-perf", v.chars().take(200).collect::<String>(), None, v.clone());
+                }
+                rep.absorb("U-perf", "20 480 floats (every exponent x 5 mantissas x 2 signs) and the i64 lattice printed by Value::from in the default and in the perf build", n * 2, true, t0, acc);
+            }
+            (Err(e), _) | (_, Err(e)) => {
+                println!("MACHINERY-ERROR battery build failed: {}", e.lines().last().unwrap_or(""));
+                return 2;
+            }
+        }
+    }
     rep.finish()
 }
 
